@@ -529,6 +529,13 @@ fn check_producers(input: &Option<Producers>, output: &Producers, k: usize, orig
     }
     if let Some(inp) = input {
         for (field, vals) in inp {
+            // a field stays even when it lists no values
+            if !output.iter().any(|(f, _)| f == field) {
+                return Err(Failure::new(
+                    "producers-input-field-lost",
+                    format!("input producers field {:?} ({} values) is missing after {} round trip(s): {:?} [{}]", field, vals.len(), k, output, origin),
+                ));
+            }
             for (name, version) in vals {
                 if field == "processed-by" && name == "walrus" {
                     continue; // replaced by the current version
